@@ -181,6 +181,13 @@ func (ie *ImageExtractor) processPicture(picture *html.Node) {
 		}
 	}
 
+	// The same goes for stray text directly inside the picture.
+	for _, node := range dom.ChildNodes(picture) {
+		if node.Type == html.TextNode {
+			picture.RemoveChild(node)
+		}
+	}
+
 	// Sometimes there are sites that use <picture> without any <img> inside it.
 	// For these cases, we use one of the <source> as <img>.
 	imgs := dom.GetElementsByTagName(picture, "img")
